@@ -79,13 +79,16 @@ Qed.
 
 (* LEFT TO RIGHT, ONCE: the first element / entry / statement is evaluated from the state the node was entered in, the remaining
    ones from the state it left behind, and their values are put together in that order - for every tail, every handler and every
-   state. With C07_stop (nothing after a failing part runs) and induction over the tail this fixes the whole order. *)
+   state. With C07_stop (nothing after a failing part runs) and induction over the tail this fixes the whole order.
+   (Since fix d4f0af3 a list or map nested deeper than MAX_VDEPTH is refused AFTER all its parts have been evaluated: the
+   refusal is an error of the node, in the state its last part left behind.) *)
 Theorem C07_sequences_left_to_right : forall x c st v st1, exec x c st = (EOk v, st1) ->
-  (forall rest vs st2, exec (AList rest) c st1 = (EOk (VList vs), st2) -> exec (AList (x :: rest)) c st = (EOk (VList (v :: vs)), st2)) /\
+  (forall rest vs st2, exec (AList rest) c st1 = (EOk (VList vs), st2) ->
+     exec (AList (x :: rest)) c st = if vbounded (VList (v :: vs)) then (EOk (VList (v :: vs)), st2) else (EErr, st2)) /\
   (forall rest err st2, exec (AList rest) c st1 = (err, st2) -> not_ok err -> exec (AList (x :: rest)) c st = (err, st2)) /\
   (forall y rest, exec (AStmt (x :: y :: rest)) c st = exec (AStmt (y :: rest)) c st1) /\
   (forall k rest kv st0 m st2, exec k c st0 = (EOk kv, st) -> exec (AMap rest) c st1 = (EOk (VMap m), st2) ->
-     exec (AMap ((k, x) :: rest)) c st0 = (EOk (VMap ((kv, v) :: m)), st2)) /\
+     exec (AMap ((k, x) :: rest)) c st0 = if vbounded (VMap ((kv, v) :: m)) then (EOk (VMap ((kv, v) :: m)), st2) else (EErr, st2)) /\
   (forall k rest kv st0 err st2, exec k c st0 = (EOk kv, st) -> exec (AMap rest) c st1 = (err, st2) -> not_ok err ->
      exec (AMap ((k, x) :: rest)) c st0 = (err, st2)).
 Proof.
@@ -127,23 +130,25 @@ Proof.
     match goal with |- context [(fix go (l : list ast) (st : state) {struct l} := _) rest st1] =>
       destruct ((fix go (l : list ast) (st : state) {struct l} := _) rest st1) as [[e1|ws] s2] eqn:Eg end.
     + inversion Hr; subst. exfalso. exact (LE _ _ _ _ Eg _ eq_refl).
-    + inversion Hr; subst. reflexivity.
+    + destruct (vbounded (VList ws)); inversion Hr; subst. reflexivity.
   - intros rest err st2 Hr Hn. cbn [Eval.exec] in Hr |- *. rewrite H.
     match goal with |- context [(fix go (l : list ast) (st : state) {struct l} := _) rest st1] =>
       destruct ((fix go (l : list ast) (st : state) {struct l} := _) rest st1) as [[e1|ws] s2] end.
     + exact Hr.
-    + inversion Hr; subst. exfalso. exact (Hn _ eq_refl).
+    + destruct (vbounded (VList ws)) eqn:Bw; inversion Hr; subst; [exfalso; exact (Hn _ eq_refl)|].
+      rewrite (vbounded_cons_list v ws Bw). reflexivity.
   - intros y rest. cbn [Eval.exec]. rewrite H. reflexivity.
   - intros k rest kv st0 m st2 Hk Hr. cbn [Eval.exec] in Hr |- *. rewrite Hk, H.
     match goal with |- context [(fix go (l : list (ast * ast)) (st : state) {struct l} := _) rest st1] =>
       destruct ((fix go (l : list (ast * ast)) (st : state) {struct l} := _) rest st1) as [[e1|m'] s2] eqn:Eg end.
     + inversion Hr; subst. exfalso. exact (ME _ _ _ _ Eg _ eq_refl).
-    + inversion Hr; subst. reflexivity.
+    + destruct (vbounded (VMap m')); inversion Hr; subst. reflexivity.
   - intros k rest kv st0 err st2 Hk Hr Hn. cbn [Eval.exec] in Hr |- *. rewrite Hk, H.
     match goal with |- context [(fix go (l : list (ast * ast)) (st : state) {struct l} := _) rest st1] =>
       destruct ((fix go (l : list (ast * ast)) (st : state) {struct l} := _) rest st1) as [[e1|m'] s2] end.
     + exact Hr.
-    + inversion Hr; subst. exfalso. exact (Hn _ eq_refl).
+    + destruct (vbounded (VMap m')) eqn:Bw; inversion Hr; subst; [exfalso; exact (Hn _ eq_refl)|].
+      rewrite (vbounded_cons_map kv v m' Bw). reflexivity.
 Qed.
 
 End C07.
